@@ -22,6 +22,7 @@ VERIF_DIR = os.path.dirname(os.path.dirname(os.path.abspath(__file__)))
 DEFAULT_SEED = 20261003
 RUN_WALL_S = 20            # backstop per run (100-10000x a normal run)
 KNOWN_FINDINGS = os.path.join(VERIF_DIR, "known_findings.json")
+DISTINCT_SAMPLE = 1        # set from the tier configuration before the batch is forked
 
 
 class WallTimeout(BaseException):
@@ -123,9 +124,15 @@ class Agg:
 
     def add_run(self, idx, out, rec, keep_digest):
         self.evaluations += 1
+        # very large batches keep a 1-in-SAMPLE subset of the hashes (by hash value, so the subset of distinct
+        # values is itself 1-in-SAMPLE) and report count * SAMPLE as an estimate; quick tiers use SAMPLE = 1 (exact)
         if out.nontrivial:
-            self.nontrivial.add(h64(rec))
-        self.scheds.add(sched_key(out))
+            h = h64(rec)
+            if h % DISTINCT_SAMPLE == 0:
+                self.nontrivial.add(h)
+        h = sched_key(out)
+        if h % DISTINCT_SAMPLE == 0:
+            self.scheds.add(h)
         for k, v in out.faults.items():
             self.faults[k] = self.faults.get(k, 0) + v
         for k, v in out.probes.items():
@@ -572,7 +579,10 @@ def write_evidence(check, tier, base_seed, agg, wall_s, extra):
         samples = ["(no sample rendered)"]
     cov = {
         "evaluations": agg.evaluations,
-        "distinct_nontrivial": len(agg.nontrivial),
+        "distinct_nontrivial": len(agg.nontrivial) * DISTINCT_SAMPLE,
+        "distinct_counts_exact": DISTINCT_SAMPLE == 1,
+        "distinct_counts_note": ("exact" if DISTINCT_SAMPLE == 1 else
+                                 f"estimated: 1-in-{DISTINCT_SAMPLE} of the hash values kept, count multiplied by {DISTINCT_SAMPLE}"),
         "rule": check.RULE,
         "samples": samples,
         "cases": agg.cases,
@@ -580,7 +590,7 @@ def write_evidence(check, tier, base_seed, agg, wall_s, extra):
         "sim_time_s": round(agg.sim_ns / 1e9, 3),
         "faults_fired": dict(sorted(agg.faults.items())),
         "probes": dict(sorted(agg.probes.items())),
-        "distinct_schedules": len(agg.scheds),
+        "distinct_schedules": len(agg.scheds) * DISTINCT_SAMPLE,
         "distinct_schedules_measure": "distinct digests of the (actor, event-kind) sequence of the run's event log",
         "components": check.COMPONENTS,
         "exhaustive": False,
@@ -654,6 +664,8 @@ def main_check(check, argv):
     print(f"VERIF_SEED={base_seed} check={check.ID} tier={tier} cases={n_cases} jobs={jobs} "
           f"repo={os.environ.get('VERIF_REPO', '/repo')}", flush=True)
 
+    global DISTINCT_SAMPLE
+    DISTINCT_SAMPLE = int(cfg.get("distinct_sample", 1))
     selftest_n = min(cfg.get("selftest", 64), n_cases)
     selftest_set = selftest_indices(n_cases, selftest_n)
     agg, truncated = run_batch(check, base_seed, n_cases, cfg["episode"], jobs, selftest_set,
@@ -743,8 +755,8 @@ def main_check(check, argv):
     if hasattr(check, "evidence_extra"):
         extra.update(check.evidence_extra(tier, agg))
     path = write_evidence(check, tier, base_seed, agg, wall, extra)
-    print(f"{check.ID} {tier}: evaluations={agg.evaluations} cases={agg.cases} distinct_nontrivial={len(agg.nontrivial)} "
-          f"schedules={len(agg.scheds)} violations_found={agg.n_violations} reported={reported} "
+    print(f"{check.ID} {tier}: evaluations={agg.evaluations} cases={agg.cases} distinct_nontrivial={len(agg.nontrivial) * DISTINCT_SAMPLE} "
+          f"schedules={len(agg.scheds) * DISTINCT_SAMPLE} violations_found={agg.n_violations} reported={reported} "
           f"wall={wall:.1f}s rate={int(agg.evaluations / max(batch_wall, 1e-6) * 3600)}/h evidence={path}", flush=True)
     if truncated:
         print(f"note: {truncated} cases not run because of the wall cap", flush=True)
